@@ -457,7 +457,7 @@ func runRelayCase(e *relayEnv, r *rand.Rand, rc relayCase) *relayOutcome {
 		}
 		emu.Unlock()
 	}
-	out.ClientWireSent = cl.Sent
+	out.ClientWireSent = cl.SentBytes()
 	out.ClientWireRecv = cr.n
 	rec, done := rig.WaitDone(cl.Local, relayB)
 	out.Rec, out.HandlerDone = rec, done
